@@ -180,6 +180,11 @@ def gen_case(rng, R):
         size['max_punc_in_group'] = rng.choice([0, 1, 2, 5])
         size['max_strings_in_group'] = rng.choice([1, 2, 10])
     seed = rng.choice([None, None, 0, 3, 12345])
+    if rng.random() < 0.1:
+        ex, size = R.gen_drift(rng)
+        size['max_punc_in_group'] = 5
+        size['max_strings_in_group'] = 10
+        seed = rng.randrange(1000)
     form = rng.choice(['list', 'list', 'dict'])
     if form == 'dict':
         cnt = {}
